@@ -646,7 +646,8 @@ func (r *RootAssertionNode) AddComputation(expr ast.Expr) {
 			// add a consumption on the annotation of the i-th parameter of `fdecl` and the
 			// expression `expr` to the root node.
 			if len(exprArgs) == 1 {
-				if argFunc, ok := exprArgs[0].(*ast.CallExpr); ok {
+				// (a conversion such as `(*int)(x)` is not a function call, and is consumed as any other argument)
+				if argFunc, ok := exprArgs[0].(*ast.CallExpr); ok && !r.isType(argFunc.Fun) {
 					handleArgFuncIdent := func(argFuncIdent *ast.Ident) bool {
 						if r.isFunc(argFuncIdent) {
 							funcObj := r.ObjectOf(argFuncIdent).(*types.Func)
@@ -1316,6 +1317,21 @@ func (r *RootAssertionNode) isTypeName(expr ast.Expr) bool {
 // checks if an expression is a type
 func (r *RootAssertionNode) isType(expr ast.Expr) bool {
 	return r.Pass().TypesInfo.Types[expr].IsType()
+}
+
+// nilPreservingConversionOperand returns the operand of the given call expression if it is a
+// conversion from a nilable type to a nilable type (e.g., `(*int)(nil)`, or `ptr(x)` for
+// `type ptr *int`), and nil otherwise. Such a conversion yields nil exactly when its operand is
+// nil. All other conversions (e.g., `[]byte("abc")`) create a new value that is never nil.
+func (r *RootAssertionNode) nilPreservingConversionOperand(call *ast.CallExpr) ast.Expr {
+	if len(call.Args) != 1 || !r.isType(call.Fun) {
+		return nil
+	}
+	from, to := r.Pass().TypesInfo.TypeOf(call.Args[0]), r.Pass().TypesInfo.TypeOf(call)
+	if from == nil || to == nil || typeshelper.TypeBarsNilness(from) || typeshelper.TypeBarsNilness(to) {
+		return nil
+	}
+	return call.Args[0]
 }
 
 // isSafeSlicing returns if the given slice expression is a special case that will not cause panic
